@@ -1,4 +1,129 @@
-(* placeholder until the agent model lands: keeps the build target alive *)
-From Coq Require Import NArith.
-Theorem C03_placeholder : (0 = 0)%N. Proof. reflexivity. Qed.
-Print Assumptions C03_placeholder.
+(* C03 - BESS tables are exactly the image of the live sessions' rules.  Statements only.
+   Tables are maps key -> value with the add = upsert / delete-by-key semantics of the four lookup modules
+   (Model/Agent.v: t_add, t_del, apply_cmds; the reading of pkg/fake_bess).  [tab m t] selects a module. *)
+From Coq Require Import NArith List Bool.
+From UPF Require Import Model.IPPool Model.Fteid Model.PortRange Model.Agent Proofs.PortRangeProofs Proofs.AgentProofs.
+Import ListNotations.
+Open Scope N_scope.
+
+(* ---- the datapath after any batch: last writer per (module, key) wins, every other key is untouched.
+   This is the lemma every image statement below rests on ("nothing else is present") *)
+Theorem C03_batch_effect : forall cs t m k,
+  t_get k (tab m (apply_cmds cs t)) =
+  match last_cmd m k cs with Some c => if c_add c then Some (c_val c) else None | None => t_get k (tab m t) end.
+Proof. exact apply_cmds_get. Qed.
+Print Assumptions C03_batch_effect.
+
+(* ---- add and delete address the same keys (a swapped field or mask in one of them breaks this) *)
+Theorem C03_pdr_add_del_same_key : forall p, map c_key (pdr_del p) = map c_key (pdr_add p).
+Proof. exact pdr_same_keys. Qed.
+Print Assumptions C03_pdr_add_del_same_key.
+Theorem C03_qer_add_del_same_key : forall burst q, map c_key (qer_del q) = map c_key (qer_add burst q).
+Proof. exact qer_same_keys. Qed.
+Print Assumptions C03_qer_add_del_same_key.
+
+(* ---- accepted establishment: the batch is exactly the add-commands of the rules now stored for the session;
+   with pairwise distinct keys inside the batch (the envelope: distinct PDRs have distinct match keys) every
+   entry is present with its value afterwards, and every key the batch does not name is as before *)
+Theorem C03_establishment_installs_image : forall burst a c nid cpf pdrs fars qers draws a' c' rseid n l cr cmds ms sd s,
+  handle_est burst a c nid cpf pdrs fars qers draws = Done (a', c', Out (Some (REst rseid CAUSE_OK n (Some l) cr)) cmds ms sd) ->
+  find_session l (c_sessions c') = Some s ->
+  cmds = add_cmds burst (view (s_pdrs s)) (view (s_fars s)) (view (s_qers s)) /\ a_tables a' = apply_cmds cmds (a_tables a).
+Proof. exact est_accepted_tables. Qed.
+Print Assumptions C03_establishment_installs_image.
+
+Theorem C03_adds_present : forall cs t c, distinct_keys cs -> (forall x, In x cs -> c_add x = true) -> In c cs ->
+  t_get (c_key c) (tab (c_mod c) (apply_cmds cs t)) = Some (c_val c).
+Proof. exact adds_install. Qed.
+Print Assumptions C03_adds_present.
+Theorem C03_nothing_else : forall cs t m k, (forall c, In c cs -> hits m k c = false) ->
+  t_get k (tab m (apply_cmds cs t)) = t_get k (tab m t).
+Proof. exact apply_cmds_untouched. Qed.
+Print Assumptions C03_nothing_else.
+
+(* ---- the ending of a session removes every entry its current rules denote (C05 has the four endings) *)
+Theorem C03_deletion_removes_image : forall a s a' cmds, end_session a s = (a', cmds) -> reclaimed a' s /\ a_gauge a' = a_gauge a - 1.
+Proof. exact end_session_reclaims. Qed.
+Print Assumptions C03_deletion_removes_image.
+
+(* ---- classification, for ALL packets: among the pdrLookup entries of one PDR exactly one matches a packet that
+   lies in the PDR's source interface, tunnel endpoint, the two address prefixes, protocol and both port ranges,
+   and none matches any other packet (uses the exact-cover theorem of C17 for the two port fields) *)
+Theorem C03_classification : forall p k rs,
+  wf16 (f_sp p) -> wf16 (f_dp p) -> k_sport k < U16 -> k_dport k < U16 -> cartesian (f_sp p) (f_dp p) = Ok rs ->
+  length (filter (fun r => wm_match (pdr_key p r) k) rs) = if pdi_match p k then 1%nat else 0%nat.
+Proof. exact classification. Qed.
+Print Assumptions C03_classification.
+
+(* ---- requests that name an unknown session or arrive without a matching association write nothing *)
+Theorem C03_unknown_session_writes_nothing : forall burst a c seid cpf cp cf cq up uf uq rp rf rq,
+  find_session seid (c_sessions c) = None ->
+  handle_mod burst a c seid cpf cp cf cq up uf uq rp rf rq = Done (a, c, just (RMod 0 CAUSE_REJ)).
+Proof. exact mod_unknown. Qed.
+Print Assumptions C03_unknown_session_writes_nothing.
+Theorem C03_no_association_writes_nothing : forall burst a c nid cpf pdrs fars qers draws n rseid v4,
+  nid = Some (IOk n) -> cpf = Some (IOk (rseid, v4)) -> (c_remote c = 0 \/ n <> c_remote c) ->
+  handle_est burst a c nid cpf pdrs fars qers draws = Done (a, c, just (REst rseid CAUSE_NOASSOC true None [])).
+Proof. exact est_without_association. Qed.
+Print Assumptions C03_no_association_writes_nothing.
+Theorem C03_rejected_establishment_writes_nothing : forall burst a c nid cpf pdrs fars qers draws a' c' o,
+  handle_est burst a c nid cpf pdrs fars qers draws = Done (a', c', o) ->
+  (forall s n u cr, o_reply o <> Some (REst s CAUSE_OK n u cr)) ->
+  o_cmds o = [] /\ a_tables a' = a_tables a /\ c' = c /\ a_gauge a' = a_gauge a /\ o_markers o = [].
+Proof. exact est_rejected. Qed.
+Print Assumptions C03_rejected_establishment_writes_nothing.
+
+(* ---- the FULL statement "after every accepted modification the tables are the image of the stored rules" is
+   false of the faithful model.  Three witnesses (each also reproduced on the implementation by the check's corpus): *)
+
+(* F12: {Remove PDR 1, Remove FAR 999} is REJECTED, yet the stored PDR list of the session becomes [2; 2] (the
+   working slices alias the stored arrays) while the datapath still holds PDR 1's entry *)
+Theorem C03_image_refuted_rejected_modification :
+  exists a c m a' c' o,
+    handle (fun _ _ _ => 0) a c true m [] = Done (a', c', o) /\ o_reply o = Some (RMod 77 CAUSE_REJ) /\
+    map (fun s => map p_id (view (s_pdrs s))) (c_sessions c) = [[1; 2]] /\
+    map (fun s => map p_id (view (s_pdrs s))) (c_sessions c') = [[2; 2]] /\
+    a_tables a' = a_tables a /\ length (t_pdr (a_tables a)) = 2%nat.
+Proof.
+  set (p1 := Pdr 1 5 2 255 0 0 0 0 50 10 1 [] 0 false false 0 0 50 4294967295 (PR 0 0) (PR 0 0) 0 0).
+  set (p2 := Pdr 2 5 2 255 0 0 0 0 51 10 1 [] 0 false false 0 0 51 4294967295 (PR 0 0) (PR 0 0) 0 0).
+  exists (Agent (Cfg 100 200 true) None (Gen 0 []) 1 (apply_cmds (pdr_add p1 ++ pdr_add p2) no_tables)).
+  exists (Conn 7 [] [Sess 5 77 (s_of [p1; p2]) (s_of []) (s_of [])] 0).
+  exists (MMod 5 None [] [] [] [] [] [] [IOk 1] [IOk 999] []).
+  do 3 eexists. repeat split; vm_compute; reflexivity.
+Qed.
+Print Assumptions C03_image_refuted_rejected_modification.
+
+(* F13: an Update PDR that changes the match key (new UE address) is accepted; the entry under the old key stays *)
+Theorem C03_image_refuted_key_changing_update :
+  exists a c m a' c' o old_key,
+    handle (fun _ _ _ => 0) a c true m [] = Done (a', c', o) /\ o_reply o = Some (RMod 77 CAUSE_OK) /\
+    t_get old_key (t_pdr (a_tables a')) <> None /\
+    (forall s p r, In s (c_sessions c') -> In p (view (s_pdrs s)) -> In r (pdr_rules p) -> pdr_key p r <> old_key).
+Proof.
+  set (p1 := Pdr 1 5 2 255 0 0 0 0 50 10 1 [] 0 false false 0 0 50 4294967295 (PR 0 0) (PR 0 0) 0 0).
+  exists (Agent (Cfg 100 200 true) None (Gen 0 []) 1 (apply_cmds (pdr_add p1) no_tables)).
+  exists (Conn 7 [] [Sess 5 77 (s_of [p1]) (s_of []) (s_of [])] 0).
+  exists (MMod 5 None [] [] [] [PdrIE (IOk 1) (IOk 10) (IOk [PSrc (IOk 1); PUeip (IOk (2, Some 60))]) false (IOk 1) true []] [] [] [] [] []).
+  do 3 eexists. exists [2; 0; 0; 0; 50; 0; 0; 0; 255; 0; 0; 0; 4294967295; 0; 0; 0].
+  split; [vm_compute; reflexivity|]. split; [vm_compute; reflexivity|]. split; [vm_compute; discriminate|].
+  intros s p r Hs Hp Hr. vm_compute in Hs. destruct Hs as [<-|[]]. vm_compute in Hp. destruct Hp as [<-|[]].
+  vm_compute in Hr. destruct Hr as [<-|[]]. vm_compute. discriminate.
+Qed.
+Print Assumptions C03_image_refuted_key_changing_update.
+
+(* F13b: a session with two QERs whose QER 2 is the session-level one; an Update QER for QER 2 is written to
+   the APPLICATION table (the message's copy is never marked) although the stored QER 2 is session-level *)
+Theorem C03_image_refuted_qer_relabel :
+  exists a c m a' c' o,
+    handle (fun _ _ _ => 0) a c true m [] = Done (a', c', o) /\ o_reply o = Some (RMod 77 CAUSE_OK) /\
+    map (fun s => map (fun q => (q_id q, q_level q)) (view (s_qers s))) (c_sessions c') = [[(1, 0); (2, 1)]] /\
+    map (fun x => (mod_code_of x, c_key x)) (o_cmds o) = [(2, [1; 2; 5]); (2, [2; 2; 5])].
+Proof.
+  set (p1 := Pdr 1 5 2 255 0 0 0 0 50 10 1 [1; 2] 0 false false 0 0 50 4294967295 (PR 0 0) (PR 0 0) 0 0).
+  exists (Agent (Cfg 100 200 true) None (Gen 0 []) 1 no_tables).
+  exists (Conn 7 [] [Sess 5 77 (s_of [p1]) (s_of []) (s_of [Qer 1 5 0 9 0 0 10 10 0 0; Qer 2 5 1 9 0 0 50 50 0 0])] 0).
+  exists (MMod 5 None [] [] [] [] [] [QerIE (IOk 2) 9 0 0 70 70 0 0] [] [] []).
+  do 3 eexists. repeat split; vm_compute; reflexivity.
+Qed.
+Print Assumptions C03_image_refuted_qer_relabel.
